@@ -1,13 +1,13 @@
 package main
 
 import (
-	"strings"
 	"bytes"
 	"encoding/json"
 	"fmt"
 	"math/big"
 	"reflect"
 	"strconv"
+	"strings"
 
 	"go.lstv.dev/util/date"
 	"go.lstv.dev/util/size"
